@@ -66,6 +66,19 @@ MUTATIONS = [
     ("C16", "userinfo-accepted", REPAIR + [(MSG, "        if parsed.username or parsed.password:\n            raise error.MalformedUrlError(", "        if False:\n            raise error.MalformedUrlError(")]),
     ("C16", "uri-host-set-for-ipv6-literal", REPAIR + [(MSG, 'is_ip_literal = parsed.netloc.startswith("[") or (', "is_ip_literal = (")]),
     ("C16", "hostportjoin-without-brackets", REPAIR + [(UTIL, 'if ":" in host and not (host.startswith("[") and host.endswith("]")):', 'if ":" in host and port is None and not (host.startswith("[") and host.endswith("]")):')]),
+    # seeded/C16-seed1: lower-casing moved before percent-decoding ("ex%41mple.com" -> Uri-Host "exAmple.com")
+    (
+        "C16",
+        "host-lower-cased-before-decoding",
+        REPAIR
+        + [
+            (
+                MSG,
+                '                    parsed.hostname, errors="strict"\n                ).translate(_ascii_lowercase)\n',
+                '                    parsed.hostname.translate(_ascii_lowercase), errors="strict"\n                )\n',
+            )
+        ],
+    ),
     ("C16", "path-quoting-keeps-slash", REPAIR + [(MSG, '_quote_for_path = quote_factory(unreserved + sub_delims + ":@")', '_quote_for_path = quote_factory(unreserved + sub_delims + ":@/")')]),
 ]
 
